@@ -5,6 +5,7 @@ V = os.path.dirname(os.path.dirname(os.path.abspath(__file__)))
 rows = [json.loads(l) for l in open(os.path.join(V, "sensitivity", "log.jsonl")) if l.strip()]
 per = collections.OrderedDict()
 for r in rows:
+    r["note"] = re.sub(r" \[re-run\]$", "", r.get("note", ""))   # re-runs of an earlier edit after generator improvements replace the earlier result
     key = (r["property"], r["file"], r.get("old", "")[:60], r.get("new", "")[:60], r.get("note", ""))
     per[key] = r            # the last run of an edit wins (re-runs after generator improvements)
 byp = collections.defaultdict(list)
